@@ -54,8 +54,19 @@ def cases(draw, tier):
     case["anchor"] = draw(st.integers(0, 143))
     case["goff"] = [draw(st.integers(-4, 84)), draw(st.integers(-4, 84))]
     npts = draw(st.integers(1, 6))
-    case["pts"] = [[draw(st.integers(-2, 2 * nc + 2)),
-                    draw(st.integers(-2, 2 * nr + 2))] for _ in range(npts)]
+    # point coordinates in eighths of a fine cell (exact squared
+    # distances): on centres, edges, and several points close to the same
+    # cell centre at different distances
+    near = draw(st.booleans())
+    if near:
+        cx, cy = draw(st.integers(0, nc - 1)), draw(st.integers(0, nr - 1))
+        case["pts"] = [[8 * cx + 4 + draw(st.integers(-3, 3)),
+                        8 * cy + 4 + draw(st.integers(-3, 3))]
+                       for _ in range(npts)]
+    else:
+        case["pts"] = [[4 * draw(st.integers(-2, 2 * nc + 2)),
+                        4 * draw(st.integers(-2, 2 * nr + 2))]
+                       for _ in range(npts)]
     return case
 
 
@@ -204,7 +215,7 @@ def oracle(case):
     # ---- voronoi (on the unfilled area, as the function uses it)
     acells = np.asarray(ca.idxcells_area, dtype=np.int64)
     axy = fd.cell2coord(acells)
-    pts = np.array([[xll + p[0] * csz / 2, yll + p[1] * csz / 2]
+    pts = np.array([[xll + p[0] * csz / 8, yll + p[1] * csz / 8]
                     for p in case["pts"]], dtype=np.float64)
     wv = voronoi(ca, pts.copy())
     if wv.shape != (len(pts),):
